@@ -62,10 +62,13 @@ func (s *slicer) walk(v ssa.Value, d int) {
 		s.walk(v.X, d+1)
 	case *ssa.IndexAddr:
 		s.walk(v.X, d+1)
+		s.walk(v.Index, d+1)
 	case *ssa.Index:
 		s.walk(v.X, d+1)
+		s.walk(v.Index, d+1)
 	case *ssa.Lookup:
 		s.walk(v.X, d+1)
+		s.walk(v.Index, d+1)
 	case *ssa.Slice:
 		s.walk(v.X, d+1)
 	case *ssa.MakeInterface:
